@@ -20,7 +20,7 @@ CLAIMED.update({
         technique="contract-based deductive verification (Verus, functions extracted mechanically from /repo)",
         design="DESIGN.md section 5, C13"),
     "C17": dict(
-        text="Deductive proof (Verus) on asm(): for every mnemonic and every variable memory class the address offset equals the port the access must use (superchip read port +0x80, 3E write port +0x400, 3E+ write port +0x200, ordinary memory +0), in the Absolute, X-indexed and Y-indexed arms; read-modify-write instructions on split-port memory are rejected with an error by asm(); under cfg atari2600 generate_plusplus never emits INC/DEC on a superchip / on-chip-RAM variable (Kani, both operand forms, all variable types).",
+        text="Deductive proof (Verus) on asm(): for every mnemonic and every variable memory class the address offset equals the port the access must use (superchip read port +0x80, 3E write port +0x400, 3E+ write port +0x200, ordinary memory +0), in the Absolute, X-indexed and Y-indexed arms; read-modify-write instructions on split-port memory are rejected with an error by asm(); the operand text of every memory access asm() emits names `symbol + constant index + port offset + high-byte displacement` (so the port offset cannot be dropped on the way to the text); under cfg atari2600 generate_plusplus never emits INC/DEC on a superchip / on-chip-RAM variable (Kani, both operand forms, all variable types).",
         note="Partial: 'still computes what the source says' is C01; the load-add-store path taken instead of INC/DEC is only recorded, not interpreted.",
         technique="contract-based deductive verification (Verus assertions spliced after the offset computation of the real asm())",
         design="DESIGN.md section 5, C17"),
@@ -45,8 +45,8 @@ CLAIMED.update({
 CLAIMED.update({
     "C10": dict(
         text="Kani (CBMC, bit-precise, full i32 domain, loop-free: complete) on the real bodies of the constant calculator's operator closures: every binary/unary operator returns the C value wherever C defines it in 32-bit int and an error (no panic, no wrapped value) elsewhere, failed operands propagate, division by zero is located at the operator; the three operator tables handed to the Pratt parser are run verbatim against a recording shim and compared with the ISO C precedence/associativity table; the generator's own folding of immediates (generate_arithm, generate_shift, neg/not/bnot arms) returns the same C values and an error (never a panic) for the undefined cases. Counterexamples are lifted to constant initialisers and replayed on the real compiler.",
-        note="pest PrattParser semantics assumed (A-pratt); oracle = C semantics written as i64 arithmetic / C99 division definition in the harness; parse_sizeof is verified (Verus) against pest shims: element count times element size for arrays, 2 for pointers and shorts, 1 for chars; integer-literal parsing is not under contract yet; ternary sentinel collision is a recorded known finding.",
-        technique="contract-style full-domain model checking of extracted loop-free code (Kani harness per operator obligation) + verbatim table extraction; Verus on parse_sizeof",
+        note="pest PrattParser semantics assumed (A-pratt); oracle = C semantics written as i64 arithmetic / C99 division definition in the harness; parse_sizeof is verified (Verus) against pest shims: element count times element size for arrays, 2 for pointers and shorts, 1 for chars; parse_int is verified (Verus) against the assumed contracts of str::parse::<i32> / i32::from_str_radix: decimal, hexadecimal, octal and character literals have their C value and a literal that does not fit is an error, never a panic; ternary sentinel collision is a recorded known finding.",
+        technique="contract-style full-domain model checking of extracted loop-free code (Kani harness per operator obligation) + verbatim table extraction; Verus on parse_sizeof and parse_int",
         design="DESIGN.md section 5, C10"),
 })
 
@@ -76,7 +76,7 @@ CLAIMED.update({
 
 CLAIMED.update({
     "C02": dict(
-        text="Deductive proof (Verus) on the two decision blocks of AssemblyCode::optimize, cut verbatim by their anchor comments: (A) the adjacent-pair rules mark an instruction for removal only when it is unprotected and the pair is one of the eliminations that are invisible by 6502 semantics (same-operand store/load, inverse transfers, dead first load, ORA #0, PLA/PHA, compare of two known-equal/different immediates), and swap only LDA with CLC/SEC; (B) the register-knowledge transfer is sound against the ISA write sets: a written register is afterwards unknown or holds exactly what the instruction put there, index changes invalidate `v,X`/`v,Y` knowledge, a written memory cell is no longer believed to sit in another register, the belief 'N/Z describe A' is held only when true, a reload is dropped only when unprotected and provably redundant.",
+        text="Deductive proof (Verus) on the two decision blocks of AssemblyCode::optimize, cut verbatim by their anchor comments: (A) the adjacent-pair rules mark an instruction for removal only when it is unprotected and the pair is one of the eliminations that are invisible by 6502 semantics (same-operand store/load, inverse transfers, dead first load, ORA #0, PLA/PHA, compare of two known-equal/different immediates), and swap only LDA with CLC/SEC; (B) the register-knowledge transfer is sound against the ISA write sets: a written register is afterwards unknown or holds exactly what the instruction put there, index changes invalidate `v,X`/`v,Y` knowledge, a written memory cell is no longer believed to sit in another register, the belief 'N/Z describe A' is held only when true, a reload is dropped only when unprotected and provably redundant; what is known after a JMP is forgotten (it would otherwise reach a join point through the JMP-to-next-label rule). BOUNDED stand-in (labelled, never counted as proved): the simulation corpus compiled at -O1 must compute what it computes at -O0.",
         note="Partial: whole-program equivalence of -O1 and -O0 is not decided: the iterator/Dummy plumbing, the multipeek look-ahead (modelled as arbitrary lines), the JMP-to-next-label rule, the knowledge resets at labels, and whether a removed flag-setting load is invisible in context are outside the two blocks. ISA write sets and the list of sound eliminations are the oracle (A-isa). A-noalias, A-immtext. -O2/-O3 are identical to -O1 in this library.",
         technique="contract-based deductive verification (Verus, code blocks extracted mechanically from /repo by anchors, free variables turned into parameters)",
         design="DESIGN.md section 5, C02"),
@@ -84,7 +84,7 @@ CLAIMED.update({
 
 CLAIMED.update({
     "C14": dict(
-        text="Deductive proof (Verus) of the structural half of inlining on the real code: append_code copies every line of the callee, suffixing exactly the label definitions and the operands of branches/JMP with `inline<counter>` and changing nothing else (mnemonic, sizes, cycles, inline-assembly and comment lines); suffixing is injective, so a branch of the expansion resolves to a label of the expansion exactly when it did in the callee; push_code uses a fresh counter, appends the renamed clone after the caller's code followed by the end label, and fails with an error (no panic) when the callee has no code yet; a `return` in an inline function jumps to the label that becomes that end label, a called function returns by RTS.",
+        text="Deductive proof (Verus) of the structural half of inlining on the real code: append_code copies every line of the callee, suffixing exactly the label definitions and the operands of branches/JMP with `inline<counter>` and changing nothing else (mnemonic, sizes, cycles, inline-assembly and comment lines); suffixing is injective, so a branch of the expansion resolves to a label of the expansion exactly when it did in the callee; push_code uses a fresh counter, appends the renamed clone after the caller's code followed by the end label, and fails with an error (no panic) when the callee has no code yet; a `return` in an inline function jumps to the label that becomes that end label, a called function returns by RTS; after a call, inlined or not, the generator forgets what it believed about N/Z. BOUNDED stand-in (labelled): the same programs with and without `inline` run on the 6502 interpreter.",
         note="Partial: behavioural equivalence of the inlined and the called placement (live registers at the call site, parameter passing, flags) is whole-program semantics and is not decided. Derived Clone assumed structural; String as hash key; std::fmt; asm()/append_* contracts proved in U-asm/U-size and reused as stubs.",
         technique="contract-based deductive verification (Verus; modular: callers verified against callee contracts proved in other units)",
         design="DESIGN.md section 5, C14"),
@@ -92,14 +92,14 @@ CLAIMED.update({
 
 CLAIMED.update({
     "C01": dict(
-        text="Partial, per-function: Kani (full 8-bit domains, loop-free) runs the real generate_branch_instruction / generate_branch_instruction_alt against a recording shim and interprets the emitted branches on the flags a 6502 CMP / load produces: the branch reaches the label exactly when `a op b` holds, for every operator, signedness, a, b (signed orderings split into the overflow and non-overflow halves; the seven halves that are false today are recorded known findings with witness programs); the negate/switch operator tables of generate_condition_ex are semantically exact for all 16-bit operands; the operator tables handed to the Pratt parser follow C precedence; the whole of generate_plusplus is run against a recording shim and its emitted sequences are interpreted on every 16-bit / 8-bit value and register state (value +-1, registers and a live accumulator preserved, and the generator's flags belief afterwards is true); operand canonicalisation of generate_arithm never exchanges the operands of - and /; Verus shows csleep/load invalidate the generator's N/Z belief and label() resets it.",
-        note="NOT decided: composition of these pieces into whole-program semantic preservation (expression evaluation order, register/temporary liveness, deferred ++, flags belief elsewhere, loops/switch/calls, scoping) and the 'must be rejected with an error' clause. That needs an invariant over the entire generator and a semantics of the pest AST: out of reach for per-function contracts here.",
-        technique="contract-style full-domain model checking of extracted loop-free lowering code (Kani) + Verus contracts on statement generators",
+        text="Partial, per-function: Kani (full 8-bit domains, loop-free) runs the real generate_branch_instruction / generate_branch_instruction_alt against a recording shim and interprets the emitted branches on the flags a 6502 CMP / load produces: the branch reaches the label exactly when `a op b` holds, for every operator, signedness, a, b (signed orderings split into the overflow and non-overflow halves; the seven halves that are false today are recorded known findings with witness programs); the negate/switch operator tables of generate_condition_ex are semantically exact for all 16-bit operands; the operator tables handed to the Pratt parser follow C precedence; the whole of generate_plusplus is run against a recording shim and its emitted sequences are interpreted on every 16-bit / 8-bit value and register state (value +-1, registers and a live accumulator preserved, and the generator's flags belief afterwards is true); operand canonicalisation of generate_arithm never exchanges the operands of - and /; Verus shows csleep/load invalidate the generator's N/Z belief and label() resets it; the whole of generate_condition_ex is verified against stubs that keep a symbolic account of A/X/Y/cctmp and of the two values the flags compare: every branch emitter is reached with `flags-operands operator` equal to the comparison asked for (`l op r`, negated if asked) up to exchanging the operands together with mirroring the operator, including the self-recursion, and the generator's flags belief is true afterwards; the decision sequence of generate_condition_16bits is interpreted for every high/low byte of the 16-bit difference; the whole of generate_arithm is verified against stubs that execute every emitted instruction on a ghost 6502: the returned expression denotes `l op r` for the byte computed (with the incoming carry for the high byte), carry-out, X/Y kept, stack balanced, a live accumulator preserved. BOUNDED stand-in (labelled, never counted as proved): a corpus of programs compiled by the real compiler and executed on a 6502 interpreter, compared with C.",
+        note="Three more defects found by these contracts were repaired (indexed element vs index register compared the register with itself; PHA without PLA; offset overflow panic); `s = X + 1000` losing the carry into the high byte is a recorded known finding of the bounded unit. NOT decided: composition of these pieces into whole-program semantic preservation (expression evaluation order, register/temporary liveness, deferred ++, flags belief elsewhere, loops/switch/calls, scoping) and the 'must be rejected with an error' clause. That needs an invariant over the entire generator and a semantics of the pest AST: out of reach for per-function contracts here.",
+        technique="contract-based deductive verification (Verus: whole generator functions against ghost-machine stubs of asm(); statement generators against asm()'s proved contract) + contract-style full-domain model checking of extracted loop-free lowering code (Kani); bounded simulation corpus as a labelled stand-in",
         design="DESIGN.md section 5, C01"),
     "C15": dict(
-        text="Partial: the table-level mechanisms behind two of the listed rewrites are proved on the real code: `a < b` versus `b > a` and `if (c) A else B` versus `if (!c) B else A` rest on the negate/switch operator tables of generate_condition_ex, which Kani shows semantically exact for all operands (mirror and complement), and on the branch emitters being exact for every operator (shared with C01); commuting + & | ^ rests on generate_arithm's operand canonicalisation, proved to exchange operands only for + & | ^ * and never for - or / (plain or compound form); ++/-- on X and Y are exact.",
+        text="Partial: the table-level mechanisms behind two of the listed rewrites are proved on the real code: `a < b` versus `b > a` and `if (c) A else B` versus `if (!c) B else A` rest on the negate/switch operator tables of generate_condition_ex, which Kani shows semantically exact for all operands (mirror and complement), and on the branch emitters being exact for every operator (shared with C01); commuting + & | ^ rests on generate_arithm's operand canonicalisation, proved to exchange operands only for + & | ^ * and never for - or / (plain or compound form); ++/-- on X, Y, chars and shorts are exact (so `++x` and `x += 1` rest on two exact lowerings); generate_condition_ex as a whole asks the same question whichever side an operand is written on (Verus, U-condex); generate_arithm computes `l op r` whichever operand order it picks (Verus, U-arithm). BOUNDED stand-in (labelled): for/while/do-while, compound assignment vs long form, switch vs if-chain, mirrored if/else run on the 6502 interpreter.",
         note="NOT decided: op= forms beyond operand order, ++x vs x += 1, for vs while, switch vs if-chain, register vs constant index, call vs inlined body: these are agreements between different lowering paths, i.e. whole-program semantics.",
-        technique="contract-style full-domain model checking of extracted loop-free code (Kani)",
+        technique="contract-style full-domain model checking of extracted loop-free code (Kani) + contract-based deductive verification (Verus) of generate_condition_ex / generate_arithm; bounded simulation corpus as a labelled stand-in",
         design="DESIGN.md section 5, C15"),
 })
 
@@ -121,8 +121,8 @@ CLAIMED.update({
 
 CLAIMED.update({
     "C16": dict(
-        text="Partial: panic-freedom of the functions under contract. Every Verus unit generates the implicit side conditions of its real text (debug-profile arithmetic overflow, index bounds, unwrap, unreachable!, slicing) and they are discharged under the stated preconditions; named obligations cover the calculator (every operator returns Ok or Err for all i32 operands and propagates failed operands instead of unwrapping: Kani), the parse-error arm of compile() for an empty line table, error locations at offset 0, asm()'s acceptance condition (exactly when it returns Err), push_code on an undefined callee, undefine on an absent name.",
-        note="NOT decided: the several hundred unwrap/unreachable!/index sites of the pest-tree walkers and of the rest of the generator, stack depth on deep nesting, and termination in general (check_branches, the closure computation, replace_all on self-referential macros, parse_int on out-of-range literals are known gaps, the last two also known defects that were not repaired). Preconditions of the contracted functions are caller obligations, proved only where a caller unit exists.",
+        text="Partial: panic-freedom of the functions under contract. Every Verus unit generates the implicit side conditions of its real text (debug-profile arithmetic overflow, index bounds, unwrap, unreachable!, slicing) and they are discharged under the stated preconditions; named obligations cover the calculator (every operator returns Ok or Err for all i32 operands and propagates failed operands instead of unwrapping: Kani), the parse-error arm of compile() for an empty line table, error locations at offset 0, asm()'s acceptance condition (exactly when it returns Err), push_code on an undefined callee, undefine on an absent name, parse_int on literals that do not fit, generate_arithm / generate_condition_ex / generate_condition_16bits whole (no unwrap, unreachable!, overflow on any path under their preconditions).",
+        note="NOT decided: the several hundred unwrap/unreachable!/index sites of the pest-tree walkers and of the rest of the generator, stack depth on deep nesting, and termination in general (check_branches, the closure computation, replace_all on self-referential macros, are known gaps, the last one also a known defect that was not repaired; parse_int on out-of-range literals was repaired and is under contract now). Preconditions of the contracted functions are caller obligations, proved only where a caller unit exists.",
         technique="contract-based deductive verification (implicit verification conditions of Verus on extracted functions) + Kani full-domain harnesses",
         design="DESIGN.md section 5, C16"),
 })
